@@ -475,5 +475,12 @@ def run_task(name, fn, settings=None, timeout_ms=60000, both=False, min_return_p
         lim = [v for v in out.vcs if v.status != "valid" and re.search(r"/safety:(no-wrap|shift-count-in-model|index-non-negative|positive-divisor|non-negative-exponent|non-negative-repeat)", v.name)]
         if lim:
             out.status, out.message = "unsupported", "UNSUPPORTED every path leaves the integer/index model at %s (%s)" % (lim[0].where, lim[0].name)
+        else:
+            # an obligation that fails for EVERY input makes the rest of its path unreachable (obligations are assumed
+            # once stated): the missing completed path is then a consequence of that failed obligation, which is
+            # reported on its own, and not a vacuous harness
+            refuted = [v for v in out.vcs if v.status == "invalid" and v.kind != "cover"]
+            if refuted:
+                out.status, out.message = "ok", "no path completes beyond the refuted obligation %s" % refuted[0].name
     out.seconds = time.time() - t0
     return out
